@@ -7,7 +7,7 @@
 //   close lvl=<conn|sess> eof=<x0|x3|slow|ign> term=<dfl|h0|hslow|ign> self=<no|x0|x2> out=<ok|garbage>
 //         td=<ms> dflt=<0|1> pre=<none|init> second=<no|conn|rwc> pending=<0|1> conc=<0|1> slack=<buckets>
 //   ->    connect=<ok|err> res=<nil|exiterr|stdin|done|unresp|waited2|hang|other> eb=<n> death=<e0|en|st|sk|so|nr>
-//         term=<t0|t<k>> gone=<0|1> leak=<0|1> second=<na|same|diff|stdin|nil|hang|other> pend=<na|ok|err|hang>
+//         term=<t0|t<k>> eof=<0|1> gone=<0|1> leak=<0|1> second=<na|same|diff|stdin|nil|hang|other> pend=<na|ok|err|hang>
 //   srvrun via=<io> end=<eof|cancel|both> pre=<none|init>  ->  ret=<nil|err|canceled|hang> sessions=<n> leak=<0|1>
 // Time appears only as BUCKETS in units of the case's TerminateDuration: eb = floor(elapsed of Close / TD),
 // t<k> = floor((instant the child saw SIGTERM - instant Close was called) / TD).  The monitor judges lower
@@ -477,7 +477,7 @@ func verifRunCmdCase(dir string, idx int, c verifCmdCase) (obs string, tags []st
 	// the child must be gone (reaped: a zombie still answers signal 0)
 	gone := "0"
 	if res != "hang" {
-		deadline := time.Now().Add(verifCmdSlack)
+		deadline := time.Now().Add(verifCmdSlack * 2 / 3)
 		for {
 			if err := syscall.Kill(pid, 0); err == syscall.ESRCH {
 				gone = "1"
@@ -519,10 +519,13 @@ func verifRunCmdCase(dir string, idx int, c verifCmdCase) (obs string, tags []st
 			}
 		}
 	}
-	termSeen := "t0"
+	termSeen, eofSeen := "t0", "0"
 	if b, err := os.ReadFile(logp); err == nil {
 		for _, l := range strings.Split(string(b), "\n") {
 			f := strings.Fields(l)
+			if len(f) >= 1 && (f[0] == "eof" || f[0] == "run") && termSeen == "t0" {
+				eofSeen = "1" // the child saw EOF on its stdin (or Server.Run returned) before any SIGTERM it logged
+			}
 			if len(f) == 2 && f[0] == "term" && termSeen == "t0" {
 				ns, _ := strconv.ParseInt(f[1], 10, 64)
 				k := (ns - t0.UnixNano()) / int64(tdEff)
@@ -548,8 +551,8 @@ func verifRunCmdCase(dir string, idx int, c verifCmdCase) (obs string, tags []st
 	}
 	cancelCtx()
 	leak := "0"
-	if res == "hang" {
-		cmd.Process.Kill()
+	if res == "hang" || gone == "0" {
+		cmd.Process.Kill() // the leak clause is about what is left once the child is gone
 	}
 	if ok, _ := verifNoLeak(verifCmdSlack); !ok {
 		leak = "1"
@@ -564,7 +567,7 @@ func verifRunCmdCase(dir string, idx int, c verifCmdCase) (obs string, tags []st
 	if c.conc {
 		tags = append(tags, "concurrent-close")
 	}
-	return fmt.Sprintf("connect=%s res=%s eb=%d death=%s term=%s gone=%s leak=%s second=%s pend=%s", connect, res, eb, death, termSeen, gone, leak, second, pend), tags
+	return fmt.Sprintf("connect=%s res=%s eb=%d death=%s term=%s eof=%s gone=%s leak=%s second=%s pend=%s", connect, res, eb, death, termSeen, eofSeen, gone, leak, second, pend), tags
 }
 
 func jsonrpc2EncodeInit() (jsonrpc.Message, error) {
